@@ -52,8 +52,11 @@ BLOCK_READS = {"compare": ((0, 1), 2), "memcmp": ((0, 1), 2), "find": ((0,), 1),
 
 # std algorithms that return the FIRST position of [first, last) with some property (last if there is none)
 FIRST_MATCH = ("std::search", "std::find_first_of", "std::find_if", "std::find_if_not", "std::find")
-# std algorithms that read [first, last) front to back
-RANGE_ALGOS = FIRST_MATCH + ("std::copy", "std::move", "std::equal", "std::mismatch", "std::lexicographical_compare")
+# std algorithms that return the LAST position of [first, last) where the pattern occurs (last if there is none, and last for an
+# empty pattern): the first match of std::search on the mirrored range
+LAST_MATCH = ("std::find_end",)
+# std algorithms on [first, last) whose meaning is known
+RANGE_ALGOS = FIRST_MATCH + LAST_MATCH + ("std::copy", "std::move", "std::equal", "std::mismatch", "std::lexicographical_compare")
 
 
 def bare_ty(t):
@@ -78,14 +81,28 @@ def is_int(v):
     return isinstance(v, int)
 
 
+def c_free(v):
+    """index of the byte of the view that the data value v is a free test of (by choosing that byte alone the test can be
+    made true and false): the byte itself, ("C", index), or ("C", None, index) = whether that byte occurs in a non-empty set
+    of foreign bytes; None for any other data value"""
+    if len(v) == 3:
+        return v[2]
+    return v[1]
+
+
 def is_Q(v):
     return isinstance(v, tuple) and v[0] == "Q"
 
 
+def is_L(v):
+    return isinstance(v, tuple) and v[0] == "L"
+
+
 def is_F(v):
-    """a pointer / object outside this view: FOREIGN, or ("Q", view parameter, offset) = a position in the memory of a
-    StringView parameter (its size is part of the small model, its bytes are data)"""
-    return v == FOREIGN or is_Q(v)
+    """a pointer / object outside this view: FOREIGN, ("Q", view parameter, offset) = a position in the memory of a
+    StringView parameter (its size is part of the small model, its bytes are data), or ("L", call operator, values of the
+    by-copy captures) = a closure object"""
+    return v == FOREIGN or is_Q(v) or is_L(v)
 
 
 def sval(v):
@@ -109,6 +126,7 @@ class GuardEval:
         self.views = dict(views)     # did -> size of a StringView parameter
         self.oracle, self.oi = list(oracle), 0
         self.reads = []
+        self.decisions = []          # per data-dependent branch taken: index of the byte of the view it freely depends on | None
         self.depth = 0
         self.watch = watch           # optional (call node id, offset expr | None, length expr): evaluated when the call is reached
         self.hits = []
@@ -121,7 +139,10 @@ class GuardEval:
         return p[2] if p[1] == "fwd" else (self.S - 1 - p[2]) & M64
 
     def read(self, p, length=1, node=None, prim=None):
-        self.reads.append((self.index_of(p), length, p[1], prim))
+        # self.oi: data-dependent branches taken before this read; free: each of them was a test of one byte of the view that no
+        # other one looked at and that a content of the view can make go either way - so some content takes this path
+        free = all(t is not None for t in self.decisions) and len(set(self.decisions)) == len(self.decisions)
+        self.reads.append((self.index_of(p), length, p[1], prim, self.oi, free))
         return ("C", self.index_of(p)) if length == 1 else ("C", None)
 
     def truth(self, e):
@@ -131,6 +152,7 @@ class GuardEval:
         if is_C(v):
             if self.oi < len(self.oracle):
                 self.oi += 1
+                self.decisions.append(c_free(v))
                 return self.oracle[self.oi - 1]
             raise Fork()
         self.opaque(e)
@@ -219,6 +241,9 @@ class GuardEval:
         if is_C(x) or is_C(y):
             # data combined / compared with a number, a position or a foreign pointer (hit != nullptr, iter == cend(), hit - ptr_)
             if all(is_C(v) or is_int(v) or is_P(v) or is_F(v) for v in (x, y)):
+                for a_, b_ in ((x, y), (y, x)):
+                    if is_C(a_) and len(a_) == 3 and op in ("==", "!=") and (b_ == FOREIGN or b_ == 0):
+                        return a_                       # found / not found of a membership test: still a free test of that byte
                 return ("C", None)
             self.opaque(e)
         if not (is_int(x) and is_int(y)):
@@ -267,8 +292,17 @@ class GuardEval:
             if is_C(v):
                 return ("C", None) if e.get("cast") in ("IntegralCast", "IntegralToBoolean") or k != "ImplicitCastExpr" else v
             return v
-        if k in ("NullPtr", "CXXNullPtrLiteralExpr", "GNUNullExpr", "LambdaExpr"):
-            return FOREIGN              # a predicate handed to an algorithm sees the bytes the algorithm shows it, nothing else
+        if k in ("NullPtr", "CXXNullPtrLiteralExpr", "GNUNullExpr"):
+            return FOREIGN
+        if k == "LambdaExpr":
+            # a closure: a predicate handed to an algorithm sees the bytes the algorithm shows it, nothing else; called in
+            # this function its body is evaluated (call_closure).  Variables captured by reference are the variables of the
+            # environment; of those captured by copy the value at this point is kept.
+            if e.get("fn") is None:
+                return FOREIGN
+            snap = tuple(sorted((c["id"], self.env[c["id"]]) for c in e.get("captures", [])
+                                if c.get("id") is not None and not c.get("byref") and c["id"] in self.env))
+            return ("L", e["fn"], snap)
         if k == "DeclRefExpr":
             did = e["ref"]["id"]
             if did in self.env:
@@ -300,6 +334,8 @@ class GuardEval:
             self.opaque(e)
         if k in ("CXXConstructExpr", "CXXTemporaryObjectExpr"):
             return self.construct(e)
+        if k == "CXXOperatorCallExpr" and e["callee"]["name"] == "operator()":
+            return self.call_closure(e)
         if k == "UnaryOperator" or (k == "CXXOperatorCallExpr" and len(kids(e)) == 1) or \
                 (k == "CXXOperatorCallExpr" and e.get("op") in ("++", "--")):
             return self.unary(e)
@@ -503,6 +539,9 @@ class GuardEval:
         cal = tu.by_did.get(e["callee"].get("did")) if tu is not None else None
         if cal is None or cal.body is None or cal.did == self.fn.did or self.depth >= 3 or len(cal.params) != len(vals):
             return NotImplemented
+        return self.bind_and_run(cal, e, vals, args)
+
+    def bind_and_run(self, cal, e, vals, args):
         for prm, v, a in zip(cal.params, vals, args):
             t = bare_ty(prm["ty"])
             if t == SV:
@@ -527,8 +566,38 @@ class GuardEval:
             return 0
         self.opaque(e)
 
+    def call_closure(self, e):
+        """a call of a closure object created on this path: the body of its call operator is evaluated like a private
+        helper.  A variable captured by reference is the variable itself (same declaration id); a variable captured by copy
+        has, during the call, the value it had when the closure was created - a closure that changes its own copy is not
+        followed.  Anything else that is called with operator() (a functor, a std::function, a closure that comes from
+        elsewhere) is not understood."""
+        a = [x for x in kids(e) if x is not None]
+        if not a or any(x["k"] == "DefaultArg" for x in a):
+            self.opaque(e)
+        clo = self.ev(a[0])
+        tu = getattr(self.fn, "tu", None)
+        if not is_L(clo) or tu is None or clo[1] != e["callee"].get("did"):
+            self.opaque(e)
+        cal = tu.by_did.get(clo[1])
+        rest = a[1:]
+        if cal is None or cal.body is None or cal.kind != "lambda" or self.depth >= 3 or len(cal.params) != len(rest):
+            self.opaque(e)
+        vals = [self.arg(x) for x in rest]
+        outer = {d: self.env.get(d, UNINIT) for d, _ in clo[2]}
+        for d, v in clo[2]:
+            self.env[d] = v
+        r = self.bind_and_run(cal, e, vals, rest)
+        for d, v in clo[2]:
+            if self.env.get(d) != v:
+                self.opaque(e)                              # a mutable closure changed its copy
+            self.env[d] = outer[d]
+        if r is NotImplemented:
+            self.opaque(e)
+        return r
+
     def algorithm(self, e, name, qn, vals, args):
-        if self.watch is not None and e["id"] == self.watch[0]:
+        if self.watch is not None and self.depth == 0 and e["id"] == self.watch[0]:     # node ids are per function
             off = self.ev(self.watch[1]) if self.watch[1] is not None else 0
             n = self.ev(self.watch[2])
             if not (is_int(off) and is_int(n)):
@@ -553,6 +622,9 @@ class GuardEval:
             self.read(vals[ps[0]], length, e, name if length is not None else None)
             return ("C", None)
         if not ps and any(is_C(v) for v in vals) and all(is_C(v) or is_int(v) or is_F(v) for v in vals):
+            if qn == "std::char_traits::find" and len(vals) == 3 and is_F(vals[0]) and not is_L(vals[0]) and is_int(vals[1]) and 1 <= vals[1] <= 8 \
+                    and is_C(vals[2]) and len(vals[2]) == 2 and vals[2][1] is not None:
+                return ("C", None, vals[2][1])      # does this byte of the view occur in a non-empty set of foreign bytes
             return ("C", None)          # a function of bytes that were read (char_traits::eq / find(set, n, byte) / tolower ...)
         self.opaque(e)
 
@@ -724,7 +796,11 @@ def outcome(name, paths):
                 if qn in ("std::copy", "std::move") and d == "fwd":
                     return ("copy", o1, (o2 - o1) & M64)
                 return ("opaque", "range handed to %s" % qn)
-            if name in DIRECTION and qn in FIRST_MATCH:
+            if name in DIRECTION and qn in LAST_MATCH:
+                # the last occurrence in [o1, o2) is the first one met when the same bytes are walked in the other direction
+                S_ = lead_S(lead)
+                d, o1, o2 = ("rev" if d == "fwd" else "fwd"), (S_ - o2) & M64, (S_ - o1) & M64
+            if name in DIRECTION and qn in FIRST_MATCH + LAST_MATCH:
                 return ("scan", d, o1 if d == "fwd" else (lead_S(lead) - 1 - o1) & M64, "range", (o1, o2, qn))
             return ("opaque", "range handed to %s" % qn)
         if kind == "return":
@@ -833,7 +909,25 @@ def judge(name, got, want, S, ssz):
         if forced == wforced:
             return "ok"
         return "bad" if kind == "range" else "undecided"
+    if idx == want[2] and kind == "range" and ssz >= 1 and (info[1] - info[0]) & M64 == (ssz if name in ("find", "rfind") else 1):
+        return "ok"                                          # room for one candidate only: the direction makes no difference here
     return "ok" if idx == want[2] and (d is None or d == want[1]) else "bad"
+
+
+def read_outside(paths, S):
+    """a read of the evaluated paths that leaves [0, S): (index, length, number of data-dependent branches taken before it,
+    whether some content of the view certainly takes that path), a certain one first; None if every read of known extent
+    stays inside the view"""
+    found = None
+    for p in paths:
+        for r in p[2]:
+            idx, ln, forks, free = r[0], r[1], r[4], r[5]
+            if idx > S or (ln is not None and ln > S - idx):
+                if forks == 0 or free:
+                    return (idx, ln, forks, True)
+                found = found or (idx, ln, forks, False)
+                break                                   # what follows the first such read of a path says nothing more
+    return found
 
 
 def check_guards(ck, tu):
@@ -861,6 +955,14 @@ def check_guards(ck, tu):
                         want = spec(name, S, pos, n, ssz)
                         got = outcome(name, paths)
                         verdict = judge(name, got, want, S, ssz)
+                        out = read_outside(paths, S) if verdict == "ok" else None
+                        if out and out[3]:
+                            # the model point alone leads to this read, or the model point and a content of the view (each branch
+                            # before it tested another byte of the view, freely)
+                            verdict, got = "bad", ("outside", out[0], out[1], out[2])
+                        elif out:
+                            # later in the scan, behind branches on bytes: whether some content takes that path is not known
+                            verdict, got = "undecided", ("opaque", "after %d data-dependent branches the scan reads %s outside the view" % (out[2], fmt_read(out)))
                         if verdict == "bad" and bad is None:
                             bad = (S, pos, n, ssz, got, want)
                         elif verdict == "undecided" and undecided is None:
@@ -885,9 +987,15 @@ def check_guards(ck, tu):
             ck.states += cases
 
 
+def fmt_read(r):
+    return "byte %s" % (r[0] if r[0] < NPOS - 64 else "npos-%d" % (NPOS - r[0])) if r[1] == 1 else "%s bytes from offset %s" % (r[1], r[0])
+
+
 def fmt_out(o):
     def f(v):
         return "npos" if v == NPOS else "?" if v is None else str(v)
+    if o[0] == "outside":
+        return "a read of %s, outside the view%s" % (fmt_read(o[1:]), (" (after %d other byte%s of the view had been tested, each once)" % (o[3], "s" if o[3] > 1 else "")) if o[3] else "")
     if o[0] == "ret":
         return "return %s" % f(o[1])
     if o[0] == "scan":
@@ -1394,6 +1502,435 @@ def fmt_term(fn, t):
     return "?"
 
 
+class _Ret(Exception):
+    def __init__(self, v):
+        self.v = v
+
+
+INT_TYPES = UNSIGNED64 + SIGNED64 + ("int", "unsigned int", "bool")
+
+
+class FwdEval:
+    """evaluates a forwarding overload of the find family on one point (pos, n) of a small model.  Values: 64-bit integers,
+    ("p", base, offset) = a pointer into the C string of parameter k (base ("s", k)) or to the character parameter k itself
+    (base ("a", k)), ("null",), ("chr", k) = the character parameter, ("v", pointer, length) = a
+    StringView (constructors are evaluated from their initialiser lists), ("call", pointer, length, pos) = the result of
+    calling another overload of the same member on *this, reduced to what the StringView overload is asked to search for.
+    Conditions are decided on the integers of the model; whatever else is met raises NotUnderstood."""
+
+    def __init__(self, tu, fn, env, strlen=None):
+        self.tu, self.fn, self.env, self.depth = tu, fn, dict(env), 0
+        self.strlen = strlen or {}          # base of a C string parameter -> its length on this point of the model
+
+    def cstr_len(self, p, e):
+        """strlen(p) for a pointer into a C string parameter whose length is part of the model"""
+        if isinstance(p, tuple) and p[0] == "p" and p[1] in self.strlen and p[2] <= self.strlen[p[1]]:
+            return self.strlen[p[1]] - p[2]
+        self.nu(e, "length of the C string")
+
+    def nu(self, e, what=None):
+        raise NotUnderstood("%s at line %s" % (what or (dtable.describe(e)[:50] if e is not None else "nothing"), (e or {}).get("l", "?")))
+
+    def conv(self, v, ty, e):
+        if not is_int(v):
+            return v
+        t = bare_ty(ty)
+        if t in UNSIGNED64 + SIGNED64:
+            return v & M64
+        if t == "unsigned int":
+            return v & 0xFFFFFFFF
+        if t == "int":
+            v &= 0xFFFFFFFF
+            return (v | (M64 ^ 0xFFFFFFFF)) if v >> 31 else v
+        if t == "bool":
+            return int(v != 0)
+        self.nu(e, "conversion to %s" % t)
+
+    def truth(self, e):
+        v = self.ev(e)
+        if is_int(v):
+            return v != 0
+        if isinstance(v, tuple) and v[0] == "p":
+            return True                                     # a pointer into an object that exists
+        if v == ("null",):
+            return False
+        self.nu(e, "condition %s" % dtable.describe(e)[:40])
+
+    def lvalue(self, e):
+        e = strip_casts(e)
+        while e is not None and e["k"] == "ParenExpr":
+            e = strip_casts(kids(e)[0])
+        if e is not None and e["k"] == "DeclRefExpr" and e["ref"].get("kind") in ("local", "param") and e["ref"]["id"] in self.env:
+            if isinstance(self.env[e["ref"]["id"]], tuple) and self.env[e["ref"]["id"]][0] == "chr":
+                self.nu(e, "the character parameter is modified")
+            return e["ref"]["id"]
+        self.nu(e, "assignment target %s" % (dtable.describe(e)[:40] if e is not None else "?"))
+
+    def arith(self, op, x, y, e, signed):
+        px, py = isinstance(x, tuple) and x[0] == "p", isinstance(y, tuple) and y[0] == "p"
+        if px and is_int(y) and op in ("+", "-"):
+            return ("p", x[1], (x[2] + y if op == "+" else x[2] - y) & M64)
+        if is_int(x) and py and op == "+":
+            return ("p", y[1], (y[2] + x) & M64)
+        if px and py and x[1] == y[1]:
+            if op == "-":
+                return (x[2] - y[2]) & M64
+            if op in ("==", "!="):
+                return int((x[2] == y[2]) == (op == "=="))
+            if op in ("<", ">", "<=", ">=") and not (x[2] >> 63) and not (y[2] >> 63):
+                x, y, signed = x[2], y[2], False
+        if (px and y == ("null",)) or (x == ("null",) and py):
+            if op in ("==", "!="):
+                return int(op == "!=")
+        if x == ("null",) and y == ("null",) and op in ("==", "!="):
+            return int(op == "==")
+        if not (is_int(x) and is_int(y)):
+            self.nu(e)
+        if op == "+":
+            return (x + y) & M64
+        if op == "-":
+            return (x - y) & M64
+        if op == "*":
+            return (x * y) & M64
+        if op in ("/", "%") and y != 0 and not (signed and ((x >> 63) or (y >> 63))):
+            return x // y if op == "/" else x % y
+        if op in ("<", ">", "<=", ">=", "==", "!="):
+            if signed:
+                x, y = sval(x), sval(y)
+            return int({"<": x < y, ">": x > y, "<=": x <= y, ">=": x >= y, "==": x == y, "!=": x != y}[op])
+        self.nu(e)
+
+    def ev(self, e):
+        if e is None:
+            self.nu(e)
+        k = e["k"]
+        if k in ("ParenExpr", "ExprWithCleanups", "MaterializeTemporaryExpr", "CXXBindTemporaryExpr", "ConstantExpr"):
+            return self.ev(kids(e)[0])
+        if k in ("IntegerLiteral", "CXXBoolLiteralExpr", "CharacterLiteral") and bare_ty(e.get("ty")) in INT_TYPES:
+            return self.conv(int(e["val"]) & M64, e.get("ty"), e)
+        if "cval" in e and bare_ty(e.get("ty")) in INT_TYPES:
+            return self.conv(int(e["cval"]) & M64, e.get("ty"), e)
+        if k in ("ImplicitCastExpr", "CStyleCastExpr", "CXXStaticCastExpr", "CXXFunctionalCastExpr", "CXXConstCastExpr") and kids(e):
+            v = self.ev(kids(e)[0])
+            c = e.get("cast")
+            if is_int(v):
+                if c in ("IntegralCast", "IntegralToBoolean") or k != "ImplicitCastExpr":
+                    return self.conv(v, e.get("ty"), e)
+                if c in (None, "NoOp", "LValueToRValue"):
+                    return v
+                self.nu(e, "conversion %s" % c)
+            if c == "PointerToBoolean":
+                return int(self.truth(kids(e)[0]))
+            if c in (None, "NoOp", "LValueToRValue", "ConstructorConversion"):
+                return v
+            self.nu(e, "conversion %s" % c)
+        if k in ("NullPtr", "CXXNullPtrLiteralExpr", "GNUNullExpr"):
+            return ("null",)
+        if k == "DeclRefExpr":
+            did = e["ref"]["id"]
+            if did in self.env:
+                if self.env[did] == UNINIT:
+                    self.nu(e, "uninitialised %s" % e["ref"].get("name"))
+                return self.env[did]
+            if e["ref"].get("qname") == SV + "::npos":
+                return NPOS
+            self.nu(e)
+        if k == "MemberExpr":
+            if e.get("member") == "npos" and e.get("owner") == SV:
+                return NPOS
+            f = match.field_of(e)
+            if f and e.get("owner") == SV and strip_casts(f[0])["k"] != "This" and f[1] in ("ptr_", "size_"):
+                v = self.ev(f[0])
+                if isinstance(v, tuple) and v[0] == "v":
+                    return v[1] if f[1] == "ptr_" else v[2]
+            self.nu(e)
+        if k in ("CXXConstructExpr", "CXXTemporaryObjectExpr"):
+            return self.construct(e)
+        if k == "ConditionalOperator":
+            c0, a, b = kids(e)
+            return self.ev(a) if self.truth(c0) else self.ev(b)
+        if k == "UnaryOperator":
+            return self.unary(e)
+        if k in ("BinaryOperator", "CompoundAssignOperator"):
+            return self.binary(e)
+        if "callee" in e and k in ("CallExpr", "CXXMemberCallExpr"):
+            return self.call(e)
+        self.nu(e)
+
+    def unary(self, e):
+        op, x = e.get("op"), kids(e)[0]
+        if op == "!":
+            return int(not self.truth(x))
+        if op in ("-", "+"):
+            v = self.ev(x)
+            if is_int(v):
+                return self.conv((-v if op == "-" else v) & M64, e.get("ty"), e)
+            self.nu(e)
+        if op in ("++", "--"):
+            d = self.lvalue(x)
+            old = self.env[d]
+            new = self.arith("+" if op == "++" else "-", old, 1, e, False)
+            if is_int(new):
+                new = self.conv(new, x.get("ty"), e)
+            self.env[d] = new
+            return old if e.get("postfix") else new
+        if op == "&":
+            x0 = strip_casts(x)
+            while x0 is not None and x0["k"] == "ParenExpr":
+                x0 = strip_casts(kids(x0)[0])
+            if x0 is not None and x0["k"] == "DeclRefExpr" and isinstance(self.env.get(x0["ref"]["id"]), tuple) and self.env[x0["ref"]["id"]][0] == "chr" \
+                    and self.fn.param_index(x0["ref"]["id"]) == self.env[x0["ref"]["id"]][1]:
+                return ("p", ("a", self.env[x0["ref"]["id"]][1]), 0)
+            ip = match.index_parts(x0) if x0 is not None else None
+            if ip:
+                return self.arith("+", self.ev(ip[0]), self.ev(ip[1]), e, False)
+            if x0 is not None and match.deref_of(x0) is not None:
+                v = self.ev(match.deref_of(x0))
+                if isinstance(v, tuple) and v[0] == "p":
+                    return v
+        self.nu(e)
+
+    def binary(self, e):
+        op = e.get("op")
+        l, r = kids(e)[0], kids(e)[1]
+        if op == ",":
+            self.ev(l)
+            return self.ev(r)
+        if op == "&&":
+            return int(self.truth(l) and self.truth(r))
+        if op == "||":
+            return int(self.truth(l) or self.truth(r))
+        if op == "=":
+            d = self.lvalue(l)
+            v = self.ev(r)
+            self.env[d] = v
+            return v
+        if op in ("+=", "-="):
+            d = self.lvalue(l)
+            v = self.arith(op[0], self.env[d], self.ev(r), e, False)
+            if is_int(v):
+                v = self.conv(v, l.get("ty"), e)
+            self.env[d] = v
+            return v
+        if op in ("+", "-", "*", "/", "%", "<", ">", "<=", ">=", "==", "!="):
+            x, y = self.ev(l), self.ev(r)
+            signed = False
+            if is_int(x) and is_int(y):
+                if op in ("+", "-", "*", "/", "%"):
+                    signed = bare_ty(e.get("ty")) in SIGNED64 + ("int",)
+                else:
+                    ta, tb = bare_ty(l.get("ty")), bare_ty(r.get("ty"))
+                    if ta in SIGNED64 + ("int",) and tb in SIGNED64 + ("int",):
+                        signed = True
+                    elif not (ta in UNSIGNED64 + ("unsigned int", "bool") and tb in UNSIGNED64 + ("unsigned int", "bool")) and ((x >> 63) or (y >> 63)):
+                        self.nu(e, "comparison of mixed signedness")
+            v = self.arith(op, x, y, e, signed)
+            if is_int(v) and op in ("+", "-", "*", "/", "%"):
+                v = self.conv(v, e.get("ty"), e)
+            return v
+        self.nu(e)
+
+    def construct(self, e):
+        a = [x for x in kids(e) if x is not None]
+        if any(x["k"] == "DefaultArg" for x in a):
+            self.nu(e, "default argument")
+        if bare_ty(e.get("ty")) != SV:
+            if len(a) == 1:
+                return self.conv(self.ev(a[0]), e.get("ty"), e) if bare_ty(e.get("ty")) in INT_TYPES else self.nu(e)
+            self.nu(e)
+        cal = self.tu.by_did.get(e["callee"].get("did"))
+        if cal is None or cal.kind != "ctor" or len(cal.params) != len(a) or self.depth >= 4 or (cal.body is not None and kids(cal.body)):
+            self.nu(e, "constructor %s" % dtable.describe(e)[:40])
+        vals = [self.ev(x) for x in a]
+        saved, self.env = self.env, {prm["did"]: v for prm, v in zip(cal.params, vals)}
+        self.depth += 1
+        try:
+            ptr = size = None
+            for i in cal.inits:
+                if i.get("e") is None:
+                    self.nu(e, "constructor initialiser")
+                if i.get("delegating"):
+                    r = self.ev(i["e"])
+                    if not (isinstance(r, tuple) and r[0] == "v"):
+                        self.nu(e, "delegating constructor")
+                    return r
+                if i.get("field") == "ptr_":
+                    ptr = self.ev(i["e"])
+                elif i.get("field") == "size_":
+                    size = self.ev(i["e"])
+                else:
+                    self.nu(e, "constructor initialiser")
+        finally:
+            self.depth -= 1
+            self.env = saved
+        if isinstance(ptr, tuple) and ptr[0] in ("p", "null") and is_int(size):
+            return ("v", ptr, size)
+        self.nu(e, "constructed view")
+
+    def call(self, e):
+        name, qn = e["callee"]["name"], e["callee"].get("qname") or ""
+        a = [x for x in kids(e) if x is not None]
+        if any(x["k"] == "DefaultArg" for x in a):
+            self.nu(e, "default argument")
+        if (name == "strlen" and qn in ("strlen", "std::strlen")) or qn == "std::char_traits::length":
+            if len(a) == 1:
+                return self.cstr_len(self.ev(a[0]), e)
+            self.nu(e)
+        if qn in ("std::min", "std::max") and len(a) == 2:
+            x, y = self.ev(a[0]), self.ev(a[1])
+            t = bare_ty((e["callee"].get("targs") or [""])[0])
+            if is_int(x) and is_int(y) and t in UNSIGNED64 + ("unsigned int",):
+                return min(x, y) if name == "min" else max(x, y)
+            if is_int(x) and is_int(y) and t in SIGNED64 + ("int",):
+                return (min if name == "min" else max)(x, y, key=sval)
+            self.nu(e)
+        if e.get("member_call"):
+            obj = strip_casts(a[0])
+            if not (obj["k"] == "This" or (match.deref_of(obj) is not None and strip_casts(match.deref_of(obj))["k"] == "This")):
+                self.nu(e, "member call on another object")
+            a = a[1:]
+        cal = self.tu.by_did.get(e["callee"].get("did"))
+        if cal is None or len(cal.params) != len(a):
+            self.nu(e, "call of %s" % name)
+        vals = [self.ev(x) for x in a]
+        if e.get("member_call") and e["callee"].get("record") == SV and name == self.fn.name and self.depth == 0:
+            if cal.did == self.fn.did:
+                self.nu(e, "the overload calls itself")
+            tt = [bare_ty(q["ty"]) for q in cal.params]
+            isp = lambda v: isinstance(v, tuple) and v[0] in ("p", "null")
+            if tt == [SV, "unsigned long"] and isinstance(vals[0], tuple) and vals[0][0] == "v" and is_int(vals[1]):
+                return ("call", vals[0][1], vals[0][2], vals[1])
+            if tt == ["char *", "unsigned long", "unsigned long"] and isp(vals[0]) and is_int(vals[1]) and is_int(vals[2]):
+                return ("call", vals[0], vals[2], vals[1])
+            if tt == ["char *", "unsigned long"] and is_int(vals[1]):
+                return ("call", vals[0], self.cstr_len(vals[0], e), vals[1])
+            self.nu(e, "call of the %s overload" % sig(cal))
+        # a helper (static or called on *this): its body is evaluated with the parameters bound by value
+        if cal.body is None or cal.kind not in ("method", "function") or self.depth >= 3:
+            self.nu(e, "call of %s" % name)
+        for prm, v in zip(cal.params, vals):
+            if (prm["ty"] or "").rstrip().endswith("&") and not (prm["ty"] or "").lstrip().startswith("const "):
+                self.nu(e, "reference parameter of %s" % name)
+            if isinstance(v, tuple) and v[0] == "chr" and (prm["ty"] or "").rstrip().endswith("&"):
+                self.nu(e, "the character parameter is passed by reference")      # its address may be taken there
+            self.env[prm["did"]] = v
+        self.depth += 1
+        try:
+            self.run(cal.body)
+        except _Ret as r:
+            if r.v is None:
+                self.nu(e, "call of %s" % name)
+            return r.v
+        finally:
+            self.depth -= 1
+        self.nu(e, "call of %s" % name)
+
+    def run(self, s):
+        if s is None:
+            return
+        k = s["k"]
+        if k == "CompoundStmt":
+            for c in kids(s):
+                self.run(c)
+            return
+        if k == "NullStmt":
+            return
+        if k == "IfStmt":
+            if "init" in s or "condvar" in s:
+                self.nu(s, "if with a declaration")
+            c, t, e = (kids(s) + [None])[:3]
+            if self.truth(c):
+                self.run(t)
+            elif e is not None:
+                self.run(e)
+            return
+        if k == "ReturnStmt":
+            raise _Ret(self.ev(kids(s)[0]) if kids(s) and kids(s)[0] is not None else None)
+        if k == "DeclStmt":
+            for v in kids(s):
+                if v["k"] != "VarDecl" or (v.get("ty") or "").rstrip().endswith("&"):
+                    self.nu(s, "declaration")
+                self.env[v["did"]] = self.ev(kids(v)[0]) if kids(v) and kids(v)[0] is not None else UNINIT
+            return
+        if k in ("UnaryOperator", "BinaryOperator", "CompoundAssignOperator", "ParenExpr", "ExprWithCleanups") or \
+                (k in ("CXXStaticCastExpr", "CStyleCastExpr", "CXXFunctionalCastExpr") and bare_ty(s.get("ty")) == "void"):
+            if bare_ty(s.get("ty")) == "void" and k not in ("UnaryOperator", "BinaryOperator", "CompoundAssignOperator"):
+                return
+            self.ev(s)
+            return
+        self.nu(s, k)
+
+
+def fwd_fmt(v):
+    if is_int(v):
+        return "npos" if v == NPOS else "npos-%d" % (NPOS - v) if v > NPOS - 64 else str(v)
+    if v == ("null",):
+        return "nullptr"
+    if v[0] == "p":
+        b = ("&" if v[1][0] == "a" else "") + "#%d" % v[1][1]
+        return b if v[2] == 0 else "%s + %s" % (b, fwd_fmt(v[2]))
+    return "?"
+
+
+def fwd_table(tu, fn, kind):
+    """evaluates the forwarding overload on a small model of (pos, n): -> None (every point ends in a call of another overload
+    that asks for the required pattern at the required position) or (pos, n, pointer, length, position) of a point that does
+    not; raises NotUnderstood.  The integer constants of the function (and their neighbours) are part of the model, so that a
+    branch on one of them is taken both ways."""
+    consts = set()
+    for y in fn.nodes():
+        c = const_int(y) if y["k"] in ("IntegerLiteral", "CharacterLiteral") or "cval" in y else None
+        if c is not None:
+            consts.update(((c - 1) & M64, c & M64, (c + 1) & M64))
+    pv = [1, 0, 2, 5, NPOS - 1, NPOS] + sorted(consts - {0, 1, 2, 5, NPOS - 1, NPOS})
+    nv = [None]
+    if kind == "spn":
+        nv = [3, 0, 1, 7, NPOS - 1, NPOS] + sorted(consts - {0, 1, 3, 7, NPOS - 1, NPOS})
+    elif kind == "sp":
+        nv = [3, 0, 1, 7] + sorted(c for c in consts - {0, 1, 3, 7} if c < 1 << 32)       # n stands for strlen(s) here
+    if len(pv) * len(nv) > 4000:
+        raise NotUnderstood("too many constants")
+    d = [q["did"] for q in fn.params]
+    base = ("p", ("a" if kind == "chr" else "s", 0), 0)
+    for pos in pv:
+        for n in nv:
+            env = {d[0]: ("chr", 0) if kind == "chr" else base, d[1]: pos}
+            if kind == "spn":
+                env[d[2]] = n
+            fe = FwdEval(tu, fn, env, {base[1]: n} if kind == "sp" else None)
+            try:
+                fe.run(fn.body)
+                raise NotUnderstood("falls off the end")
+            except _Ret as r:
+                v = r.v
+            except RecursionError:
+                raise NotUnderstood("recursion")
+            if not (isinstance(v, tuple) and v[0] == "call"):
+                raise NotUnderstood("the returned value is not the result of another %s overload (pos=%s)" % (fn.name, fwd_fmt(pos)))
+            wlen = 1 if kind == "chr" else n
+            if v[3] != pos or v[2] != wlen or (v[1] != base and wlen != 0):
+                return pos, n, v[1], v[2], v[3]
+    return None
+
+
+def overload_by_evaluation(ck, tu, fn, kind, why, deferred_msg):
+    """second line of OVERLOAD-ROLES for overloads that are not one straight-line forwarding call"""
+    try:
+        bad = fwd_table(tu, fn, kind)
+    except NotUnderstood as e:
+        ck.deferred.append("%s (%s)" % (deferred_msg, e))
+        return
+    if bad is None:
+        ck.ok("OVERLOAD-ROLES", SV + "::" + sig(fn), "on a small model of (pos, n) every path ends in a call of another overload that is asked for the pattern and the position "
+              "in their roles", nontrivial=False)
+    else:
+        pos, n, ptr, ln, at = bad
+        name = lambda k: fn.params[k]["name"] or "#%d" % k
+        txt = lambda v: fwd_fmt(v).replace("#0", name(0))
+        ck.violation("OVERLOAD-ROLES", fn.qname, sig(fn), "%s: with %s=%s%s it searches for StringView(%s, %s) at %s"
+                     % (why, name(1), fwd_fmt(pos), "" if n is None else ", %s=%s" % (name(2) if kind == "spn" else "strlen(%s)" % name(0), fwd_fmt(n)), txt(ptr), txt(ln), fwd_fmt(at)), fn.loc)
+
+
 def check_overloads(ck, tu):
     for fn in tu.find(record=SV):
         if fn.name not in FWD or not fn.params or "StringView" in fn.params[0]["ty"]:
@@ -1405,14 +1942,17 @@ def check_overloads(ck, tu):
         # roles by position and type, as fixed by the std::string_view interface: (char c, pos) | (const char* s, pos, n) | (const char* s, pos)
         tys = [bare_ty(p["ty"]) for p in fn.params]
         if tys == ["char", "unsigned long"]:
+            kind = "chr"
             want = (("view", ("addr", 0), ("int", 1)), ("param", 1))
             alts = ()
             why = "the character overload must search for StringView(&c, 1) at pos"
         elif tys == ["char *", "unsigned long", "unsigned long"]:
+            kind = "spn"
             want = (("view", ("param", 0), ("param", 2)), ("param", 1))
             alts = ()
             why = "the (s, pos, n) overload must search for StringView(s, n) at pos"
         elif tys == ["char *", "unsigned long"]:
+            kind = "sp"
             want = (("view", ("param", 0)), ("param", 1))
             alts = ((("view", ("param", 0), ("strlen", ("param", 0))), ("param", 1)),)
             why = "the (s, pos) overload must search for StringView(s) at pos"
@@ -1439,21 +1979,24 @@ def check_overloads(ck, tu):
             if got3 == (("param", 0), ("param", 1), ("strlen", ("param", 0))) and returned:
                 ck.ok("OVERLOAD-ROLES", SV + "::" + sig(fn), "forwards (s, pos, strlen(s)) to the (s, pos, n) overload", nontrivial=False)
             elif any(has_unknown(t) for t in got3) or not returned:
-                ck.deferred.append("%s: arguments forwarded by the %s overload not understood: %s(%s)" % (fn.loc, sig(fn), fn.name, ", ".join(fmt_term(fn, t) for t in got3)))
+                overload_by_evaluation(ck, tu, fn, kind, why, "%s: arguments forwarded by the %s overload not understood: %s(%s)"
+                                       % (fn.loc, sig(fn), fn.name, ", ".join(fmt_term(fn, t) for t in got3)))
             else:
                 ck.violation("OVERLOAD-ROLES", fn.qname, sig(fn), "%s: it calls %s(%s)" % (why, fn.name, ", ".join(fmt_term(fn, t) for t in got3)), fn.loc)
             continue
         if len(calls) != 1 or not straight or obj["k"] != "This" or len(a) != 2 or target is None or not target.params or bare_ty(target.params[0]["ty"]) != SV:
-            ck.deferred.append("%s: the %s overload calls %s, but not as one straight-line forwarding call on *this to the StringView overload" % (fn.loc, sig(fn), fn.name))
+            overload_by_evaluation(ck, tu, fn, kind, why, "%s: the %s overload calls %s, but not as one straight-line forwarding call on *this to the StringView overload"
+                                   % (fn.loc, sig(fn), fn.name))
             continue
         got = (resolve_arg(fn, a[0], defs, written), resolve_arg(fn, a[1], defs, written))
         if got == want or got in alts:
             if returned:
                 ck.ok("OVERLOAD-ROLES", SV + "::" + sig(fn), "forwards (pattern, pos) in their roles", nontrivial=False)
             else:
-                ck.deferred.append("%s: the %s overload forwards correctly but what it returns is not understood" % (fn.loc, sig(fn)))
+                overload_by_evaluation(ck, tu, fn, kind, why, "%s: the %s overload forwards correctly but what it returns is not understood" % (fn.loc, sig(fn)))
         elif has_unknown(got[0]) or has_unknown(got[1]):
-            ck.deferred.append("%s: arguments forwarded by the %s overload not understood: %s(%s, %s)" % (fn.loc, sig(fn), fn.name, fmt_term(fn, got[0]), fmt_term(fn, got[1])))
+            overload_by_evaluation(ck, tu, fn, kind, why, "%s: arguments forwarded by the %s overload not understood: %s(%s, %s)"
+                                   % (fn.loc, sig(fn), fn.name, fmt_term(fn, got[0]), fmt_term(fn, got[1])))
         else:
             ck.violation("OVERLOAD-ROLES", fn.qname, sig(fn), "%s: it searches for %s at %s" % (why, fmt_term(fn, got[0]), fmt_term(fn, got[1])), fn.loc)
 
@@ -1462,15 +2005,21 @@ def run(ck):
     ck.explanation = (
         "GUARD-TABLES: at/substr/copy and the six find-family members are evaluated on a small model (view size 0..3, pos incl. npos and "
         "npos-1, n, argument size) with 64-bit wrap-around: integers, positions of the view (pointers, iterators, reverse iterators), sub-views and "
-        "bytes read from memory are the values; the evaluation follows locals, loops, early returns and private helpers up to the first byte of the "
-        "view that is read or the range handed to an algorithm, and what happens there (throw / fixed answer / offset and length / start and "
+        "bytes read from memory are the values; the evaluation follows locals, loops, early returns, private helpers and closures called in the "
+        "function up to the first byte of the view that is read or the range handed to an algorithm (std::find_end = the first match of the "
+        "mirrored range), and what happens there (throw / fixed answer / offset and length / start and "
         "direction of the scan) is compared with std::string_view's rules; because these prefixes are piecewise linear with unit coefficients "
-        "the small model covers every ordering of (pos, size, argument size). A difference is reported only for an evaluated point of the model; "
+        "the small model covers every ordering of (pos, size, argument size). Every later read of an evaluated path must stay inside the view as well: "
+        "one outside is reported if the model point alone leads to it, or the model point and a content of the view (each branch before it tested "
+        "another byte of the view for membership in the non-empty argument), otherwise it is 'cannot decide'. "
+        "A difference is reported only for an evaluated point of the model; "
         "a construct the evaluation does not understand is 'cannot decide'. NO-CSTR-PRIMITIVE / BYTE-ORDER-UNSIGNED: no NUL-terminated "
         "primitive on memory of a view and no signed-char ordering inside the class; SCAN-BOUND: raw mem*/char_traits calls are limited to "
         "size_ - offset (evaluated on the same model where the shape is not the usual one); POS-REACHES-ACCESS: the first byte touched moves with "
         "pos; REL-FROM-COMPARE: truth table of the relational members over the sign of compare(); OVERLOAD-ROLES: the 18 forwarding overloads "
-        "pass (pattern, pos, n) in their roles (roles by position and type). Search results as values are not decided.")
+        "pass (pattern, pos, n) in their roles (roles by position and type); an overload that is not one straight-line call is evaluated on a small "
+        "model of (pos, n / strlen(s)) incl. the constants it mentions: every path must end in a call of another overload of the member that is "
+        "asked for the same bytes (constructors are evaluated from their initialiser lists) at pos. Search results as values are not decided.")
     tu = ir.extract("witness/C18_string_view.cpp")
     # a rule that cannot decide its construct (exit 2) must not hide what another rule reports
     for rule in (check_primitives, check_guards, check_pos_reaches, check_relational, check_overloads):
